@@ -43,6 +43,10 @@ def unit_ast(a):
     return stats
 
 
+def unit_reuse(a):
+    return pc.unit_reuse(a, st_ast(), proj_c06, WHAT, 66)
+
+
 def unit_golden(a):
     return pc.unit_golden(proj_c06, WHAT)
 
@@ -53,6 +57,8 @@ def replay(case, stats):
     if case["sub"] == "text":
         from . import textdocs
         return textdocs.check_text(case, stats, "C06")
+    if case["sub"] == "reuse":
+        return pc.check_reuse(case, stats, proj_c06, WHAT)
     return check_ast(case, stats)
 
 
@@ -61,6 +67,7 @@ def run(ctx):
     q = ctx.quick
     ctx.units("golden", unit_golden, [{}])
     ctx.units("ast-hypothesis", unit_ast, [{"n": 1000 if q else 20000, "seed": ctx.seed, "shard": i} for i in range(4 if q else 16)], procs=16)
+    ctx.units("compiler-reuse", unit_reuse, [{"n": 300 if q else 4000, "seed": ctx.seed, "shard": i} for i in range(4 if q else 16)], procs=16)
     from . import textdocs
     textdocs.run_text(ctx, "C06")
     ctx.rule = ("ASTs drawn by Hypothesis (features with 0..3 scenarios and 0..3 rules, 0..3 steps, 0..3 examples blocks each "
